@@ -42,6 +42,7 @@ PROBES = [
     "probe.closure_call", "probe.recursion", "probe.echo_seen", "probe.use_after_reject", "probe.two_rejects_in_a_row",
     "probe.blank_entry", "probe.continued_line_closed_by_blank", "probe.comment_only_line", "probe.runtime_error_inside_call",
 ]
+THOROUGH_ONLY_PROBES = ["probe.long_session"]
 COMPONENTS = {
     "real": ["p2sh release binary (run_prompt loop, Prompt::show / dialoguer, parser, compiler state hand-over, VM)",
              "kernel pseudo-terminal", "script-mode reference processes of the same binary"],
@@ -218,6 +219,9 @@ def generate(rng, tier, idx):
     lines = []     # logical lines: dict(kind, text, cut, phys=[physical lines])
     stats = {}
     n = rng.range(1, 20 if tier == "thorough" else 12)
+    long_session = tier == "thorough" and rng.chance(4)
+    if long_session:
+        n = rng.range(40, 120)   # a long session: state carried over many lines; a sample of the lines is referenced
     nfail = 0
     for i in range(n):
         fail_p = 28 if i > 0 else 10
@@ -260,9 +264,14 @@ def generate(rng, tier, idx):
             # continued entry that is finished by an empty physical line
             ln["text"] = text + " \n"
         lines.append(ln)
-    if rng.chance(50):
+    if rng.chance(50) or long_session:
         lines.append({"kind": "probe", "text": _probe_line(env), "cut": None})
-    return {"lines": lines, "rseed": rng.u64() >> 8}
+    model = {"lines": lines, "rseed": rng.u64() >> 8}
+    if long_session:
+        idxs = list(range(len(lines)))
+        rng.shuffle(idxs)
+        model["ref_lines"] = sorted(set(idxs[:12] + [len(lines) - 1]))
+    return model
 
 
 # ---------------------------------------------------------------------------
@@ -299,7 +308,11 @@ def execute(model, wd):
     for i, s in enumerate(segs):
         res.segs_by_line[owner[i]] = res.segs_by_line.get(owner[i], "") + s
     results = [res]
+    only = model.get("ref_lines")
     for k in range(len(model["lines"])):
+        if only is not None and k not in only:
+            results.append(None)   # long session: this line's output is not compared (its effects are, through later lines)
+            continue
         results.append(runner.run_concrete(wd, reference_concrete(model, k), clean=False))
     return results
 
@@ -319,7 +332,7 @@ def reference_concrete(model, k):
 
 def render(model):
     return [{"argv": [], "script": "\n".join(p for ln in model["lines"] for p in physical(ln["text"])) + "\n", "files": {}, "plan": {"rseed": model["rseed"]}}] + [
-        reference_concrete(model, k) for k in range(len(model["lines"]))]
+        (reference_concrete(model, k) if (model.get("ref_lines") is None or k in model["ref_lines"]) else None) for k in range(len(model["lines"]))]
 
 
 # ---------------------------------------------------------------------------
@@ -346,6 +359,8 @@ def check(model, results):
     elif res.status != ("exit", 0):
         viols.append(_viol("session:status", "REPL ended with %r" % (res.status,)))
     lines = model["lines"]
+    if model.get("ref_lines") is not None:
+        inc("probe.long_session")
     last_reject = None
     classes = []
     nontrivial = False
@@ -390,6 +405,14 @@ def check(model, results):
             inc("probe.comment_only_line")
         if "(fn(n)" in ln["text"] and kind == "runtime":
             inc("probe.runtime_error_inside_call")
+        if seg is not None and ref is None and model.get("ref_lines") is not None:
+            classes.append("-")
+            if kind in ("parse", "compile", "runtime"):
+                last_reject = kind
+                seen_fail = True
+            else:
+                last_reject = None
+            continue
         if seg is None or ref is None:
             if not viols:
                 viols.append(_viol("session:short", "no REPL output recorded for line %d" % k))
@@ -455,6 +478,12 @@ def check(model, results):
 # ---------------------------------------------------------------------------
 
 def shrink(model):
+    if model.get("ref_lines") is not None:
+        # first make it an ordinary session (every line referenced), then shrink as usual
+        m2 = dict(model)
+        del m2["ref_lines"]
+        yield m2
+        return
     lines = model["lines"]
     n = len(lines)
     if n > 1:
